@@ -75,6 +75,8 @@ type Path struct {
 	site   *frame
 	decVal uint64
 	lastNow *Term
+	tickers []*Chan
+	deadlockLabel string
 	curFr  *frame
 	pc     []*Term
 
